@@ -123,9 +123,107 @@ def stats(cases, results):
     return d
 
 
+# ---- stream 2: the types as DvClass.get_source prints them (fields, parameters, return types) ----------------------------
+SRC_WORDS = ["java", "lang", "String", "Object", "Long", "LinkageError", "Launcher", "List", "Integer", "I", "Z", "L", "J", "V", "Lx", "annotation",
+             "Foo$Bar", "x", "javax", "language", "util", "Iterable", "Short", "B", "Boolean", "D"]
+
+
+def _src_type(rng, void_ok=False):
+    r = rng.random()
+    if void_ok and r < 0.2:
+        return "V"
+    dims = "[" * rng.choice((0, 0, 0, 1, 2))
+    if r < 0.4:
+        return dims + rng.choice("ZBSCIJFD")
+    if r < 0.7:
+        return dims + "Ljava/lang/" + rng.choice(SRC_WORDS) + ";"
+    k = rng.choice((1, 1, 2, 3))
+    return dims + "L" + "/".join(rng.choice(SRC_WORDS) for _ in range(k)) + ";"
+
+
+def gen_source(rng, tier, ctx):
+    """case = (fields [(type, static)], methods [(ret, params, abstract)])"""
+    cases = [([("Ljava/lang/Long;", False), ("[[LI;", True)], [("Ljava/lang/Long;", ["Ljava/lang/Long;", "[LLauncher;", "I", "LI;"], True),
+                                                                  ("V", ["Ljava/lang/LinkageError;", "J", "[D"], False)])]
+    for _ in range(120 if tier == "thorough" else 25):
+        fields = [(_src_type(rng), rng.random() < 0.4) for _ in range(rng.randint(0, 6))]
+        methods = []
+        for _ in range(rng.randint(1, 6)):
+            ret = _src_type(rng, void_ok=True)
+            abstract = rng.random() < 0.5 or ret != "V"
+            methods.append((ret, [_src_type(rng) for _ in range(rng.randint(0, 4))], abstract))
+        cases.append((fields, methods))
+    return cases
+
+
+def impl_source(case):
+    import re
+    from tools.writers.dexwriter import DexBuilder, Code
+    from androguard.core.dex import DEX
+    from androguard.core.analysis.analysis import Analysis
+    from androguard.decompiler.decompiler import DecompilerDAD
+    fields, methods = case
+    b = DexBuilder()
+    c = b.add_class("Lgen/T;", access=0x401)
+    for k, (t, st) in enumerate(fields):
+        c.add_field("f%d" % k, t, access=9 if st else 1, static=st)
+    for k, (ret, params, abstract) in enumerate(methods):
+        if abstract:
+            c.add_method("m%d" % k, ret, params, access=0x401, direct=False, code=None)
+        else:
+            nreg = sum(2 if p in "JD" else 1 for p in params)
+            c.add_method("m%d" % k, ret, params, access=9, direct=True, code=Code(nreg + 1, nreg, 0, [0x000E]))
+    d = DEX(b.build())
+    dx = Analysis(d)
+    d.set_decompiler(DecompilerDAD(d, dx))
+    src = d.get_class("Lgen/T;").get_source()
+    fs = dict((int(k), t) for t, k in re.findall(r"^\s+(?:public |static )+(\S+) f(\d+);$", src, re.M))
+    ms = {}
+    for ret, k, ps in re.findall(r"^\s+(?:public |static |abstract )+(\S+) m(\d+)\((.*)\)", src, re.M):
+        ms[int(k)] = [ret, [q.rsplit(" ", 1)[0] for q in ps.split(", ")] if ps else []]
+    return [[fs.get(k) for k in range(len(fields))], [ms.get(k) for k in range(len(methods))]]
+
+
+def _java_names(desc):
+    p = parse_wf(desc)
+    dims, what, payload = p
+    if what == "prim":
+        allowed = {PRIMS[payload]}
+    else:
+        allowed = {".".join(payload)}
+        if len(payload) == 3 and payload[:2] == ["java", "lang"]:
+            allowed.add(payload[2])
+    return {a + "[]" * dims for a in allowed}
+
+
+def oracle_source(case, res):
+    if isinstance(res, Err):
+        return "decompiling the generated class failed: %s %s" % (res.name, res.msg[:150])
+    fields, methods = case
+    for k, (t, st) in enumerate(fields):
+        if res[0][k] not in _java_names(t):
+            return "field f%d of type %r is declared as %r; its Java name is %s" % (k, t, res[0][k], " or ".join(sorted(_java_names(t))))
+    for k, (ret, params, abstract) in enumerate(methods):
+        got = res[1][k]
+        if got is None:
+            return "method m%d is missing from the source" % k
+        if got[0] not in _java_names(ret):
+            return "method m%d: return type %r is written as %r" % (k, ret, got[0])
+        if len(got[1]) != len(params):
+            return "method m%d: %d parameters in the source, %d in the prototype" % (k, len(got[1]), len(params))
+        for j, (pt, g) in enumerate(zip(params, got[1])):
+            if g not in _java_names(pt):
+                return "method m%d: parameter %d of type %r is written as %r; its Java name is %s" % (k, j, pt, g, " or ".join(sorted(_java_names(pt))))
+    return None
+
+
 STREAMS = [{
     "name": "descriptors", "gen": gen, "impl": impl, "coq_header": COQ_HEADER,
     "coq_type": "Z * list Z", "coq_input": lambda c: "(%s, %s)" % (z(c[0]), zlist(c[1])),
     "coq_obs": "obs_type", "model_vo": "Dad/TypeNameModel.vo",
     "pinned": False, "oracle": oracle, "stats": stats, "shard": 300,
+}, {
+    "name": "source-prototypes", "gen": gen_source, "impl": impl_source, "pinned": False, "oracle": oracle_source,
+    "stats": lambda cases, results: {"classes": len(cases), "fields": sum(len(c[0]) for c in cases), "methods": sum(len(c[1]) for c in cases),
+                                      "parameters": sum(len(m[1]) for c in cases for m in c[1])},
 }]
